@@ -90,7 +90,8 @@ def forged_signature(obj, auto=True, args=(), kwargs={}):
     forger = getattr(subject, '_sigtools__forger', None)
     if forger is not None:
         ret = forger(obj=subject)
-        if ret is not None:
+        # objects with a catch-all __getattr__ (mocks) have no real forger
+        if isinstance(ret, _util.funcsigs.Signature):
             return _signatures.UpgradedSignature._upgrade_with_warning(ret)
     if auto:
         try:
@@ -99,7 +100,7 @@ def forged_signature(obj, auto=True, args=(), kwargs={}):
             pass
         else:
             h = subject._sigtools__autoforwards_hint(subject)
-            if h is not None:
+            if type(h) is tuple:
                 try:
                     ret = _autoforwards.autoforwards_ast(
                         *h, args=args, kwargs=kwargs)
